@@ -125,6 +125,11 @@ def file_events(path, workdir, with_topo):
     gc.collect()
     f3 = ItpFile(p3)
     ev.append(dict(op='rewrite2', **observe(f3)))
+    if hasattr(f3, 'copy'):
+        # the other way to a written file: a copy of the parsed object written out
+        p4 = os.path.join(workdir, 'w3.itp')
+        f3.copy().write(p4)
+        ev.append(dict(op='rewrite', **observe(ItpFile(p4))))
     if with_topo:
         ev += topo_events(path, 'file')
         # the topology read from the rewritten file must be the same: validated as a second topo event
@@ -264,6 +269,22 @@ def random_topology(rng, n, graph_kind):
         for i in range(1, n):
             if rng.random() < 0.8:
                 bonds.add((rng.randrange(0, i), i))
+    elif graph_kind == 'pieces':
+        # two to four components (contiguous or interleaved atom numbers), each a tree, a ring or a tree with extra
+        # ring-closing bonds; lone atoms allowed - in particular "a ring followed by a lone atom"
+        k = rng.randint(2, 4)
+        owner = sorted(rng.randrange(k) for _ in range(n)) if rng.random() < 0.5 else [rng.randrange(k) for _ in range(n)]
+        for c in range(k):
+            mem = [i for i in range(n) if owner[i] == c]
+            shape = rng.choice(['tree', 'ring', 'cyclic'])
+            for q in range(1, len(mem)):
+                bonds.add((mem[q - 1] if shape == 'ring' else mem[rng.randrange(0, q)], mem[q]))
+            if shape == 'ring' and len(mem) >= 3:
+                bonds.add((mem[0], mem[-1]))
+            if shape == 'cyclic' and len(mem) >= 3:
+                for _ in range(rng.randint(1, 3)):
+                    a, b = rng.sample(mem, 2)
+                    bonds.add((min(a, b), max(a, b)))
     bonds = sorted(bonds)
     rng.shuffle(bonds)
     f = [{'k': 'comm', 't': [], 'c': [['generated', 'topology']]}]
@@ -326,15 +347,16 @@ def _work(args):
                     ev = common.guarded(file_events, 180, path, workdir, False)
                 elif kind == 'topo':
                     rng = random.Random(payload)
-                    f, n, bonds = random_topology(rng, rng.randint(1, 40), rng.choice(['tree', 'cyclic', 'forest']))
+                    f, n, bonds = random_topology(rng, rng.randint(1, 40), rng.choice(['tree', 'cyclic', 'forest', 'pieces']))
                     cfg['file'] = f
                     with open(path, 'w') as out:
                         out.write(render(f, rng, final_newline=rng.random() < 0.8))
                     ev = common.guarded(file_events, 180, path, workdir, True)
                 elif kind == 'graph':
                     rng = random.Random(payload)
-                    n = rng.choice([rng.randint(1, 300), rng.randint(900, 3000)])
-                    f, n, bonds = random_topology(rng, n, rng.choice(['chain', 'tree', 'cyclic', 'forest']))
+                    gk = rng.choice(['chain', 'tree', 'cyclic', 'forest', 'pieces', 'pieces'])
+                    n = rng.choice([rng.randint(1, 300), rng.randint(900, 3000)] + ([rng.randint(3, 12)] * 2 if gk == 'pieces' else []))
+                    f, n, bonds = random_topology(rng, n, gk)
                     cfg = {'kind': 'graph', 'file': [], 'n': n, 'bonds': bonds}
                     with open(path, 'w') as out:
                         out.write(render(f, rng))
